@@ -12,10 +12,10 @@ import (
 
 func init() {
 	register(&property{
-		ID: "C06",
+		ID:          "C06",
 		Explanation: "Static decision of what makes matchers pure and fragmentation-insensitive: (R1) only Connection.Read and prefetch read the raw connection; matcher-reachable code touches cx.Conn only for address accessors; (R2) in matching mode Read never reaches the socket (path-evaluated scenario table); (R3) need-more propagation: in every function reachable from a ConnMatcher.Match, every call that reads from the connection (or a reader/framer built on it) and returns an error has that error tested, and every return reachable from the error edge returns an error that derives from it - a short read is never turned into a definite 'no' (reviewed exceptions: the DNS/RDP trailing-byte probes and the DNS UDP accumulation loop); (R4) the view returned by MatchingBytes() is never written, and a verdict that depends on how much is buffered answers need-more/buffer-full; (R5) matcher-reachable code stores to no Connection field and never calls Wrap.",
-		NotDecided: "Monotonicity of verdicts over growing prefixes and repeatability for each protocol (value-level); third-party parsers' own handling of short reads (http.ReadRequest, http2.Framer are trusted to return the reader's error).",
-		Run:        runC06,
+		NotDecided:  "Monotonicity of verdicts over growing prefixes and repeatability for each protocol (value-level); third-party parsers' own handling of short reads (http.ReadRequest, http2.Framer are trusted to return the reader's error).",
+		Run:         runC06,
 	})
 }
 
@@ -27,6 +27,8 @@ func runC06(c *Ctx, r *Report) {
 	c06R5(c, r, "C06.R5")
 	c01R1(c, r, "C06.R6")
 	c06R7(c, r, "C06.R7")
+	c02R1(c, r, "C06.R8")     // the combinators hand a "need more data" answer up unchanged (it is never overwritten by a later set's "no")
+	c02Router(c, r, "C06.R9") // the router never acts on a verdict that is stale for the stream as it is now (fragmented == whole delivery)
 }
 
 // R7: matcher side effects on per-connection state happen only after all reading is done.
